@@ -61,6 +61,18 @@ ASSUMPTIONS = [
 
 _CACHE = ("._applied_points", "._iab")
 HOMOG_CLASSES = ["AlignmentSimilarity", "AlignmentRotation", "AlignmentAffine", "AlignmentTranslation", "AlignmentUniformScale"]
+def _invertible_parameters(o, nv, homog):
+    """A drawn parameter vector is only used if the transform it describes is comfortably invertible (a perturbation
+    can land exactly on scale 0: v*(1+p)+p with v=1, p=-0.5); judged on a scratch result of from_vector."""
+    if not homog:
+        return True
+    try:
+        lin = np.asarray(o.from_vector(np.array(nv, dtype=float)).h_matrix, dtype=float)[:-1, :-1]
+    except Exception:
+        return False
+    return bool(np.all(np.isfinite(lin))) and float(np.linalg.cond(lin)) < 1e4 and abs(float(np.linalg.det(lin))) > 1e-3
+
+
 MAX_LIVE = 4
 RBF_KINDS = [None, "R2LogR2RBF", "R2LogRRBF", "R3"]
 SRC_KINDS = ["PointCloud", "PointCloud", "TriMesh", "PointDirectedGraph", "PointUndirectedGraph"]
@@ -679,6 +691,9 @@ def run_history(c, ctx):
             v = np.array(o.as_vector(), dtype=float, copy=True)
             p = np.array(step[2][: v.shape[0]])
             nv = v * (1 + p) + p
+            if not _invertible_parameters(o, nv, homog):
+                ctx.event("step skipped: drawn parameter vector gives a singular transform")
+                continue
             b = o.from_vector(nv)
             ctx.expect(b is not o, "from_vector.returns_receiver", "")
             ne = {"obj": b, "expect": observe(b), "role": "from_vector result" if e["role"] != "pseudoinverse" else "pseudoinverse",
@@ -691,6 +706,9 @@ def run_history(c, ctx):
             ctx.event("step=from_vector_inplace on %s" % e["role"])
             v = np.array(o.as_vector(), dtype=float, copy=True)
             p = np.array(step[2][: v.shape[0]])
+            if not _invertible_parameters(o, v * (1 + p) + p, homog):
+                ctx.event("step skipped: drawn parameter vector gives a singular transform")
+                continue
             with warnings.catch_warnings():
                 warnings.simplefilter("ignore")
                 o.from_vector_inplace(v * (1 + p) + p)
